@@ -38,6 +38,7 @@ FILTERS = {
     "too_long": "that were too long",
     "too_many_n": "with too many N",
     "too_many_expected_errors": "with too many exp. errors",
+    "too_high_average_error_rate": "with too high avg. error rate",
     "casava_filtered": "failed CASAVA filter",
     "discard_trimmed": "discarded as trimmed",
     "discard_untrimmed": "discarded as untrimmed",
